@@ -56,6 +56,8 @@ def elseSendCounts : List Nat := [1]
 def branchExcSendCounts : List (Nat × List Nat) := [(3, [1]), (4, [1]), (5, [1]), (6, [1]), (13, [1]), (18, [1]), (14, [1]), (15, [1]), (11, [1]), (12, [1]), (17, [1]), (7, [1]), (8, [1]), (9, [1]), (10, [1]), (19, [1]), (20, [1]), (16, [1]), (200, [1]), (0, [1])]
 /-- the same for the helpers a branch may call instead of a responder -/
 def helperSendCounts : List (List Nat) := [[1], [1], [1], [1]]
+/-- SFTPServer._read_folder: the count field of the NAME packet and the entries emitted come from the same list, one (filename, longname, attrs) triple per element, unconditionally (AST) -/
+def readdirCountMatchesEntries : Bool := true
 /-- SFTPClient._async_request: the packet is sent outside the region that holds self._lock (AST) -/
 def sendOutsideLock : Bool := true
 def sendUnderLock : Bool := !sendOutsideLock
